@@ -454,7 +454,7 @@ impl FileMetaStore {
                     info!("Loaded hard state from file");
                 }
                 Err(e) => {
-                    eprintln!("Failed to decode hard state: {e}",);
+                    return Err(StorageError::BincodeError(e).into());
                 }
             }
         }
@@ -470,9 +470,11 @@ impl FileMetaStore {
     ) -> Result<(), Error> {
         if key == HARD_STATE_KEY {
             let hard_state_path = self.data_dir.join(HARD_STATE_FILE_NAME);
-            let mut file = File::create(hard_state_path)?;
+            let tmp_path = self.data_dir.join("hard_state.tmp");
+            let mut file = File::create(&tmp_path)?;
             file.write_all(value)?;
-            file.flush()?;
+            file.sync_all()?;
+            fs::rename(&tmp_path, &hard_state_path)?;
         }
 
         Ok(())
